@@ -324,8 +324,10 @@ class _VariationalStrategy(Module, ABC):
         fantasy_lik_train_root_inv = fant_pred_strat.lik_train_train_covar.root_inv_decomposition()
         mean_cache = fantasy_lik_train_root_inv.matmul(train_labels_offset).squeeze(-1)
         mean_cache = _add_cache_hook(mean_cache, fant_pred_strat)
-        # keyed by the NaN policy of the reader; the targets are used as they are under every policy
-        for nan_policy in ("ignore", "mask", "fill"):
+        # keyed by the NaN policy of the reader; complete targets are used as they are under every policy
+        # (with missing targets the 'mask' / 'fill' readers have to build their own cache)
+        complete = not torch.isnan(fant_pred_strat.train_labels).any()
+        for nan_policy in ("ignore", "mask", "fill") if complete else ("ignore",):
             add_to_cache(fant_pred_strat, "mean_cache", mean_cache, nan_policy)
         # TODO: should we update the covar_cache?
 
